@@ -148,6 +148,9 @@ Definition py_is_none (a : pyval) : pyval :=
   match a with VNone => VBool true | VRet _ | VErr => VErr | _ => VBool false end.
 Definition py_is_not_none (a : pyval) : pyval :=
   match a with VNone => VBool false | VRet _ | VErr => VErr | _ => VBool true end.
+(** [x is True], [x is False]: identity with the bool singletons (1 is True = False) *)
+Definition py_is_bool (b : bool) (a : pyval) : pyval :=
+  match a with VBool x => VBool (Bool.eqb x b) | VRet _ | VErr => VErr | _ => VBool false end.
 (** [x is M] for an enum member M (members are singletons): x must be None or an enum member *)
 Definition py_is (a b : pyval) : pyval :=
   match a, b with
@@ -279,6 +282,9 @@ Fixpoint distinct_go (l : list pyval) : bool :=
   | x :: l' => match mem_go x l' with Some false => distinct_go l' | _ => false end
   end.
 Definition py_set (l : list pyval) : pyval := if all_ok l && distinct_go l then VSet l else VErr.
+(** [set(x)], [frozenset(x)] of a set, or of a sequence of pairwise different hashable atoms *)
+Definition py_set_of (v : pyval) : pyval :=
+  match v with VSet l => VSet l | VTuple l | VList l => if distinct_go l then VSet l else VErr | _ => VErr end.
 Definition py_dict (l : list (pyval * pyval)) : pyval :=
   if all_ok (map fst l) && all_ok (map snd l) && distinct_go (map fst l) then VDict l else VErr.
 Definition py_in (x c : pyval) : pyval :=
